@@ -15,9 +15,9 @@ import (
 	"sync/atomic"
 	"time"
 
+	"github.com/goblimey/go-ntrip/apps/appcore"
 	filehandler "github.com/goblimey/go-ntrip/file_handler"
 	"github.com/goblimey/go-ntrip/jsonconfig"
-	"github.com/goblimey/go-ntrip/apps/appcore"
 	"github.com/goblimey/go-ntrip/rtcm/handler"
 	"github.com/goblimey/go-ntrip/rtcm/utils"
 
@@ -76,11 +76,20 @@ func zoneOf(name string) *time.Location {
 	case "UTC":
 		return time.UTC
 	case "London":
-		return utils.LocationLondon
+		if utils.LocationLondon != nil {
+			return utils.LocationLondon
+		}
+		return time.FixedZone("london-no-tz-database", 3600)
 	case "Paris":
-		return utils.LocationParis
+		if utils.LocationParis != nil {
+			return utils.LocationParis
+		}
+		return time.FixedZone("paris-no-tz-database", 2*3600)
 	case "Moscow":
-		return utils.LocationMoscow
+		if utils.LocationMoscow != nil {
+			return utils.LocationMoscow
+		}
+		return time.FixedZone("moscow-no-tz-database", 3*3600)
 	case "+14":
 		return time.FixedZone("plus14", 14*3600)
 	case "-12":
